@@ -604,8 +604,16 @@ func (e *c04eEnv) scReencodedAt(kind, place string) {
 		p2 = c04eSurplus(p.tx, detKey("c04e-foreign"))
 		sig = "c04/replayed/surplus-signature"
 	}
-	if p2.Hash() == p.tx.Hash() || types.MakeSigner().Hash(p2) != types.MakeSigner().Hash(p.tx) || c04eSigner0(p2) != keyAddr(p.from) || c04eSigner0(p.tx) != keyAddr(p.from) {
-		panic("re-encoding did not produce a distinct tx with the same content and signer")
+	if p2.Hash() == p.tx.Hash() || types.MakeSigner().Hash(p2) != types.MakeSigner().Hash(p.tx) || c04eSigner0(p.tx) != keyAddr(p.from) {
+		panic("re-encoding did not produce a distinct tx with the same content")
+	}
+	if c04eSigner0(p2) != keyAddr(p.from) {
+		// since fix 04be1c5 the (r, n-s, v^1) encoding no longer recovers to anybody; the scenario still runs, so that
+		// the engine's verdict on a block carrying it is observed (the miner must drop it)
+		if kind != "malleated" {
+			panic("re-encoding did not keep the signer")
+		}
+		c.Count("e:" + kind + ":signature-no-longer-recovers")
 	}
 	senderBefore := e.bal(base, keyAddr(p.from))
 	var chainBlocks []*types.Block
